@@ -302,5 +302,6 @@ Accepted   == \A x \in relaylog : x.wok => (M!SentAccepted(x) /\ M!UnknownRefuse
 SingleSend == \A s1, s2 \in sentlog : (s1.node = s2.node /\ s1.req = s2.req /\ s1.h = s2.h /\ s1.keys = s2.keys) => s1.hash = s2.hash
 
 AbsInv == BuildsOK /\ Agreement /\ SentOK /\ QuorumRule /\ FinishOnce /\ Accepted
-InfoInv == SingleSend
+\* a restart forgets what was sent: the rule is per incarnation (the model keeps no incarnation number)
+InfoInv == AllowRestart \/ SingleSend
 =============================================================================
